@@ -434,3 +434,7 @@ package tss
 //@   props C06
 //@   requires params != nil
 //@   ensures result == params.safePrimeGenTimeout
+
+//@ func (*Error).Error
+//@   props C05 C06
+//@   pure
